@@ -1,1 +1,233 @@
 //! Verification hooks (cfg `rten_verif`). Not compiled into ordinary builds.
+//!
+//! Add-only access to crate-private items for the external verification
+//! harness in `/verif/harness/gemm`:
+//!
+//!  - construct a [`GemmExecutor`] for a *named* kernel (kernel selection is
+//!    otherwise private),
+//!  - read the blocking parameters (`mr`, `nr`, `mc`, `nc`, `kc`) that
+//!    `gemm_impl` will use for a given problem size, and the chunk sizes used
+//!    by the `gemv` path,
+//!  - call the kernel's packing entry points directly and inspect prepacked
+//!    buffers, so that the packed layouts can be compared with the model.
+use std::mem::MaybeUninit;
+use std::ops::Range;
+
+use rten_tensor::Matrix;
+
+use crate::kernels::Kernel;
+use crate::{
+    F32KernelType, GemmExecutor, GemmInT, GemmOutT, Im2Col, Int8KernelType, PackedAMatrix,
+    PackedBMatrix, QuantParams, WithKernel, col_block_size, depth_block_size, row_block_size,
+};
+
+/// Names accepted by [`f32_executor`], in the order of preference used by
+/// `GemmExecutor::default`. Only kernels supported on the current machine are
+/// listed.
+pub fn f32_kernel_names() -> Vec<&'static str> {
+    let mut names = Vec::new();
+    for name in ["avx512", "fma", "neon", "wasm", "generic"] {
+        if f32_executor(name).is_some() {
+            names.push(name);
+        }
+    }
+    names
+}
+
+/// Construct an f32 executor that uses the named kernel, if supported.
+pub fn f32_executor(name: &str) -> Option<GemmExecutor<f32, f32, f32>> {
+    let kind = match name {
+        "generic" => F32KernelType::Generic,
+        #[cfg(target_arch = "x86_64")]
+        "fma" => F32KernelType::Fma,
+        #[cfg(target_arch = "x86_64")]
+        "avx512" => F32KernelType::Avx512,
+        #[cfg(target_arch = "aarch64")]
+        "neon" => F32KernelType::ArmNeon,
+        #[cfg(target_arch = "wasm32")]
+        #[cfg(target_feature = "simd128")]
+        "wasm" => F32KernelType::Wasm,
+        _ => return None,
+    };
+    GemmExecutor::<f32, f32, f32>::with_kernel(kind)
+}
+
+/// Names accepted by [`int8_executor`] that are supported on this machine.
+pub fn int8_kernel_names() -> Vec<&'static str> {
+    let mut names = Vec::new();
+    for name in ["avx512", "avx2", "i8mm", "dot", "neon", "wasm", "generic"] {
+        if int8_executor(name).is_some() {
+            names.push(name);
+        }
+    }
+    names
+}
+
+/// Construct a `u8 x i8 -> i32` executor that uses the named kernel, if
+/// supported.
+pub fn int8_executor(name: &str) -> Option<GemmExecutor<u8, i8, i32>> {
+    let kind = match name {
+        "generic" => Int8KernelType::Generic,
+        #[cfg(target_arch = "x86_64")]
+        "avx2" => Int8KernelType::Avx2,
+        #[cfg(target_arch = "x86_64")]
+        "avx512" => Int8KernelType::Avx512,
+        #[cfg(target_arch = "aarch64")]
+        "i8mm" => Int8KernelType::ArmI8mm,
+        #[cfg(target_arch = "aarch64")]
+        "dot" => Int8KernelType::ArmDot,
+        #[cfg(target_arch = "aarch64")]
+        "neon" => Int8KernelType::ArmNeon,
+        #[cfg(target_arch = "wasm32")]
+        #[cfg(target_feature = "simd128")]
+        "wasm" => Int8KernelType::Wasm,
+        _ => return None,
+    };
+    GemmExecutor::<u8, i8, i32>::with_kernel(kind)
+}
+
+/// Blocking parameters used by `gemm_impl` for one call.
+#[derive(Clone, Copy, Debug, PartialEq)]
+pub struct BlockParams {
+    /// Kernel tile height.
+    pub mr: usize,
+    /// Kernel tile width.
+    pub nr: usize,
+    /// Row block size.
+    pub mc: usize,
+    /// Column block size.
+    pub nc: usize,
+    /// Depth block size.
+    pub kc: usize,
+}
+
+/// Return the blocking parameters that `gemm_impl` uses for an `m x k` by
+/// `k x n` product on the calling thread's Rayon pool. `depth_min` is the
+/// block size of a block-quantized RHS, if any.
+pub fn block_params<LhsT: GemmInT, RhsT: GemmInT, OutT: GemmOutT>(
+    gemm: &GemmExecutor<LhsT, RhsT, OutT>,
+    m: usize,
+    n: usize,
+    k: usize,
+    depth_min: Option<usize>,
+) -> BlockParams {
+    let (mr, nr) = (gemm.kernel.mr(), gemm.kernel.nr());
+    BlockParams {
+        mr,
+        nr,
+        mc: row_block_size(m, mr),
+        nc: col_block_size(n, nr),
+        kc: depth_block_size::<RhsT>(k, depth_min),
+    }
+}
+
+/// Chunk sizes `(column block, depth block)` used by the vector-matrix
+/// (`gemv`) path for a RHS with `n` columns and the given row stride.
+pub fn gemv_params(n: usize, b_row_stride: usize) -> (usize, usize) {
+    // Mirrors the two `let` bindings at the top of `gemv`.
+    let b_block_size = n.div_ceil(rayon::current_num_threads()).max(128);
+    let k_block_size = if b_row_stride == 1 { 512 } else { 8 };
+    (b_block_size, k_block_size)
+}
+
+/// Result of packing one block with a kernel's packing function.
+pub struct PackedBlock {
+    /// Packed bytes (`layout.size()` of them).
+    pub data: Vec<u8>,
+    /// Stride between panels in bytes.
+    pub panel_stride: usize,
+    /// Whether the kernel requires this input to be packed.
+    pub must_pack: bool,
+}
+
+fn run_pack(size: usize, pack: impl FnOnce(&mut [MaybeUninit<u8>])) -> Vec<u8> {
+    // u32-aligned backing store, as `PackingBuffer` provides.
+    let mut buf: Vec<u32> = vec![0xDEAD_BEEF; size.div_ceil(4)];
+    {
+        let bytes: &mut [MaybeUninit<u8>] = unsafe {
+            std::slice::from_raw_parts_mut(buf.as_mut_ptr() as *mut MaybeUninit<u8>, size)
+        };
+        pack(bytes);
+    }
+    let bytes = unsafe { std::slice::from_raw_parts(buf.as_ptr() as *const u8, size) };
+    bytes.to_vec()
+}
+
+/// Pack `a[rows, cols]` with the executor's kernel, as `gemm_impl` does for one
+/// (row block, depth block).
+pub fn pack_a_block<LhsT: GemmInT, RhsT: GemmInT, OutT: GemmOutT>(
+    gemm: &GemmExecutor<LhsT, RhsT, OutT>,
+    a: Matrix<LhsT>,
+    rows: Range<usize>,
+    cols: Range<usize>,
+    quant: Option<QuantParams<LhsT>>,
+) -> PackedBlock {
+    let kernel: &dyn Kernel<LhsT, RhsT, OutT> = &*gemm.kernel;
+    let layout = kernel.packed_a_layout(a, rows.len(), cols.len(), quant);
+    let data = run_pack(layout.size(), |out| {
+        kernel.pack_a_block(out, a, rows.clone(), cols.clone(), quant)
+    });
+    PackedBlock {
+        data,
+        panel_stride: layout.panel_stride(),
+        must_pack: layout.must_pack,
+    }
+}
+
+/// Pack `b[rows, cols]` with the executor's kernel, as `gemm_impl` does for one
+/// (depth block, column block).
+pub fn pack_b_block<LhsT: GemmInT, RhsT: GemmInT, OutT: GemmOutT>(
+    gemm: &GemmExecutor<LhsT, RhsT, OutT>,
+    b: Matrix<RhsT>,
+    rows: Range<usize>,
+    cols: Range<usize>,
+    quant: Option<QuantParams<RhsT>>,
+) -> PackedBlock {
+    let kernel: &dyn Kernel<LhsT, RhsT, OutT> = &*gemm.kernel;
+    let layout = kernel.packed_b_layout(rows.len(), cols.len(), quant);
+    let data = run_pack(layout.size(), |out| {
+        kernel.pack_b_block(out, b, rows.clone(), cols.clone(), quant)
+    });
+    PackedBlock {
+        data,
+        panel_stride: layout.panel_stride(),
+        must_pack: true,
+    }
+}
+
+/// Pack a block of an im2col matrix with the executor's kernel.
+pub fn pack_im2col<LhsT: GemmInT, RhsT: GemmInT, OutT: GemmOutT>(
+    gemm: &GemmExecutor<LhsT, RhsT, OutT>,
+    image: &Im2Col<RhsT>,
+    rows: Range<usize>,
+    cols: Range<usize>,
+    zero_point: Option<RhsT>,
+) -> PackedBlock {
+    let kernel: &dyn Kernel<LhsT, RhsT, OutT> = &*gemm.kernel;
+    let layout = kernel.packed_b_layout(rows.len(), cols.len(), None);
+    let data = run_pack(layout.size(), |out| {
+        kernel.pack_im2col(out, image, rows.clone(), cols.clone(), zero_point)
+    });
+    PackedBlock {
+        data,
+        panel_stride: layout.panel_stride(),
+        must_pack: true,
+    }
+}
+
+/// Raw contents of a prepacked LHS matrix (the packing buffer as `u32`
+/// words; f32 kernels store one element per word).
+pub fn prepacked_a_words<T>(p: &PackedAMatrix<T>) -> Vec<u32>
+where
+    PackedAMatrix<T>: Clone,
+{
+    p.clone().into_vec()
+}
+
+/// Raw contents of a prepacked RHS matrix.
+pub fn prepacked_b_words<T>(p: &PackedBMatrix<T>) -> Vec<u32>
+where
+    PackedBMatrix<T>: Clone,
+{
+    p.clone().into_vec()
+}
